@@ -19,10 +19,13 @@ DTYPES = ["int32", "int64", "int8", "uint8", "float64", "float32"]
 
 
 def rand_rule(rng, dtype, kinds=("hash", "probe", "counter")):
-    kind = rng.choice(kinds)
+    kind = rng.choice([x for x in kinds if x != "half"])
     k = rng.randint(2, 5)
     signed = dtype in ("int32", "int64", "int8", "float64", "float32")
     off = rng.choice([0, 0, -1, -2]) if signed else 0
+    if kind == "hash" and "half" in kinds and rng.random() < 0.3:
+        # a result that the automaton's dtype cannot hold exactly (integer dtypes): must be cast on every step
+        return "half:%d:%d:%d:%d:%d" % (k, rng.choice([2, 3, 5]), rng.randint(0, 3), off, 2 if dtype.startswith("float") else 0), k, off
     if kind == "counter":
         return "counter:%d:%d" % (k, off), k, off
     return "%s:%d:%d:%d:%d" % (kind, k, rng.choice([2, 3, 5]), rng.randint(0, 3), off), k, off
@@ -34,6 +37,7 @@ def rand_case(rng, kinds=("hash", "probe", "counter"), maxN=14, memo="False"):
     choices = [1, 1, 2, N, max(1, N - 1), rng.randint(1, N), max(1, (N - 1) // 2), max(1, N // 2)]
     r = min(N, rng.choice(choices))
     rule, k, off = rand_rule(rng, dtype, kinds)
+    kinds = tuple(x for x in kinds if x != "half")
     H = rng.choice([1, 1, 2, 3])
     style = rng.random()
     hist = []
@@ -61,8 +65,14 @@ def gen(ctx):
         for rule in ("hash:3:2:1:0", "probe:4:3:0:0", "counter:3:0"):
             yield dict(kind="ev1", hist=[[(i * i + 1) % 3 for i in range(N)]], dtype="int32", scale=1, r=r,
                        rule=rule, T=4, memo="False")
+    # long runs with a callable timesteps: growth thresholds of any internal buffer (32, 64, 128, 256 states)
+    for K in ([33, 70, 130] if ctx.tier == "quick" else [31, 32, 33, 63, 64, 65, 70, 127, 128, 129, 130, 257]):
+        for H in (1, 3):
+            N = rng.randint(3, 6)
+            yield dict(kind="ev1", hist=[[rng.randrange(3) for _ in range(N)] for _ in range(H)], dtype=rng.choice(["int32", "uint8", "float64"]),
+                       scale=1, r=1, rule=rng.choice(["hash:3:2:1:0", "probe:3:2:1:0", "counter:3:0"]), pred="steps:%d" % K, memo="False", fuel=K + 5)
     for _ in range(ctx.n(700, 8000)):
-        c = rand_case(rng)
+        c = rand_case(rng, kinds=("hash", "probe", "counter", "half"))
         if rng.random() < 0.2:
             c["clobber"] = 1          # the rule overwrites the neighbourhood array it was handed
         yield c
